@@ -11,7 +11,8 @@ def anyCase (fam opts : String) (texts : List String) : String := compileCase fa
 def tokenAlphabet : List String :=
   ["module", "struct", "interface", "enum", "custom", "typealias", "Result", "Sequence", "Dictionary", "bool", "int32", "varuint62",
    "float64", "string", "compact", "idempotent", "stream", "tag", "unchecked", "(", ")", "[", "]", "[[", "]]", "{", "}", "<", ">",
-   ",", ":", "::", "=", "?", "->", "-", "X", "\\struct", "7", "0x1F", "\"s\"", "/// doc\n", "// c\n", "/* c */", "#if X\n", "#endif\n", "@", "é", "\n"]
+   ",", ":", "::", "=", "?", "->", "-", "X", "\\struct", "7", "0x1F", "\"s\"", "/// doc\n", "// c\n", "/* c */", "#if X\n", "#endif\n", "@", "é", "\n",
+   "#define X", "#if", "#", "&&", "!", "\u00a0", "\u3000", "\u2028", "\u000b", "\r"]
 
 def soups : Nat → List (List String)
   | 0 => [[]]
@@ -77,6 +78,11 @@ def completeDigraph (n : Nat) : String :=
   "module M\n" ++ String.join ((List.range n).map fun i =>
     "struct S" ++ toString i ++ " { " ++ String.join (((List.range n).filter (· != i)).map fun j => "f" ++ toString j ++ ": S" ++ toString j ++ "? ") ++ "}\n")
 
+/-- `typealias A0 = Sequence<int32>`, then `k` layers `typealias Ai = Result<A(i-1), A(i-1)>`, used by one field -/
+def aliasDiamond (k : Nat) : String :=
+  "module M\ntypealias A0 = Sequence<int32>\n" ++ String.join ((List.range k).map fun i =>
+    "typealias A" ++ toString (i + 1) ++ " = Result<A" ++ toString i ++ ", A" ++ toString i ++ ">\n") ++ "struct S { a: A" ++ toString k ++ " }\n"
+
 /-- `X0 a X1 b`, `X1 a X2 b`, …, then the last element written with `lastPre n lastPost` -/
 def chainOf (n : Nat) (pre mid post lastPre lastPost : String) : String :=
   "module M\n" ++ String.join ((List.range n).map fun i => pre ++ toString i ++ mid ++ toString (i + 1) ++ post ++ "\n") ++
@@ -100,6 +106,18 @@ def orphanTemplates : List (List String) :=
     ["module M\n" ++ bad ++ "custom C\n" ++ bad ++ "custom D %\n"],
     ["module M\nenum E { A(\n/// {@link x}\n/// @param y: z\nx: int32, tag(1) y: bool?) B(" ] ]
 
+/-- the 25 code points of `char::is_whitespace` -/
+def unicodeWhitespace : List Char :=
+  ['\u0009', '\u000a', '\u000b', '\u000c', '\u000d', ' ', '\u0085', '\u00a0', '\u1680', '\u2000', '\u2001', '\u2002', '\u2003', '\u2004',
+   '\u2005', '\u2006', '\u2007', '\u2008', '\u2009', '\u200a', '\u2028', '\u2029', '\u202f', '\u205f', '\u3000']
+
+/-- `~` marks where the whitespace character goes -/
+def wsTemplates : List String :=
+  ["#define FOO~\nmodule M\n", "#~define FOO\nmodule M\n", "#define~FOO\nmodule M\n", "#if X~&&~!Y\nmodule M\n#endif\n", "#if X\nmodule M\n#endif~\n",
+   "#if (~X~)~// c\nmodule M\n#else~\nmodule N\n#endif", "#undef X~", "~#define X\nmodule M\n", "#if X ||~", "#elif~X\n",
+   "module~M\nstruct~S~{~a:~bool~}\n", "module M\n[cs::a(~x~,~\"y~\")]~struct S {}\n", "module M\n///~doc\n///~~{@link~S}~x\n///~@param~p~:~q\nstruct S {}\n",
+   "module M\n/*~*/ struct S {} //~\n", "module M\nenum E : uint8 { A =~1,~B~}\n", "module M\nstruct S { tag(~1~)~a: bool? }\n", "[[~allow(All)~]]~module M\n"]
+
 def nested (open_ close : String) (depth : Nat) (core : String) : String :=
   String.join (List.replicate depth open_) ++ core ++ String.join (List.replicate depth close)
 
@@ -110,6 +128,11 @@ def genC01 (tier : Tier) (seed : Nat) (o : Out) : IO Unit := do
     for s in soups n do
       o.line (anyCase ("soup" ++ toString n) "-" [" ".intercalate s])
       if n ≥ 1 then o.line (anyCase ("soup-m" ++ toString n) "-" ["module M\n" ++ " ".intercalate s])
+  -- every Unicode White_Space code point in every lexical context (the three lexers skip whitespace with different predicates)
+  for ws in unicodeWhitespace do
+    for t in wsTemplates do
+      o.line (anyCase "unicode-whitespace" "-" [t.replace "~" (String.singleton ws)])
+      o.line (anyCase "unicode-whitespace" "D=X" [t.replace "~" (String.singleton ws ++ String.singleton ws)])
   -- every type form in every type position
   for pos in [0:14] do
     for ty in typeForms do
@@ -117,7 +140,13 @@ def genC01 (tier : Tier) (seed : Nat) (o : Out) : IO Unit := do
   -- cycles of every kind
   for src in ["struct A { a: A }", "struct A { b: B }\nstruct B { a: A? }", "struct A { b: Sequence<B> }\nstruct B { a: Dictionary<int32, A> }",
               "enum A { X(a: A) }", "struct A { r: Result<bool, A> }", "typealias A = B\ntypealias B = A", "typealias A = A",
-              "typealias A = B\ntypealias B = A\nstruct S { a: A }", "compact struct K { k: K }\nstruct U { d: Dictionary<K, bool> }"] do
+              "typealias A = B\ntypealias B = A\nstruct S { a: A }", "compact struct K { k: K }\nstruct U { d: Dictionary<K, bool> }",
+              -- rho shapes: a chain that leads into a cycle it is not part of
+              "typealias Z = A\ntypealias A = B\ntypealias B = B", "typealias A = B\ntypealias B = C\ntypealias C = B\nstruct S { a: A }",
+              "typealias A = B\ntypealias B = C\ntypealias C = D\ntypealias D = C\ninterface I { op(p: Sequence<A>) -> A }",
+              "struct A { b: B }\nstruct B { c: C }\nstruct C { b: B }", "struct A { b: B }\nstruct B { c: C? }\nstruct C { d: D }\nstruct D { b: Sequence<B> }",
+              "interface A : B {}\ninterface B : C {}\ninterface C : B {}", "enum A { X(b: B) }\nenum B { Y(c: C) }\nenum C { Z(b: B) }",
+              "typealias A = Sequence<B>\ntypealias B = Dictionary<bool, C>\ntypealias C = Result<B, bool>\nstruct S { a: A }"] do
     o.line (anyCase "cycles" "-" ["module M\n" ++ src ++ "\n"])
   for src in ["interface A : A {}", "interface A : B {}\ninterface B : A {}", "interface A : B { op() }\ninterface B : C {}\ninterface C : A { op() }",
               "interface Z : A {}\ninterface A : B {}\ninterface B : A {}"] do
@@ -137,6 +166,10 @@ def genC01 (tier : Tier) (seed : Nat) (o : Out) : IO Unit := do
   for n in [3, 5, 7] do
     o.line (anyCase ("complete" ++ toString n) "-" [completeDigraph n])
   o.line (anyCase "known-d05d-complete-digraph" "-" [completeDigraph 12])
+  -- type structure shared through aliases of anonymous types is walked once per path (open finding D-05f)
+  for k in [4, 10, 16] do
+    o.line (anyCase "alias-diamond" "-" [aliasDiamond k])
+  o.line (anyCase "known-d05f-alias-diamond" "-" [aliasDiamond 30])
   -- a user element named like a primitive (used to replace the primitive's entry in the lookup table, D-01b)
   for prim in ["bool", "int8", "uint8", "int16", "uint16", "int32", "uint32", "varint32", "varuint32", "int64", "uint64", "varint62",
                "varuint62", "float32", "float64", "string"] do
